@@ -6,6 +6,7 @@
   Error Report against its own class -> (code, encapsulated part, text) table, written from RFC 8210
   section 12 and the texts in packets.c (not from the Coq model);
 * running a script on Impl and Model, trace comparison, shrinking."""
+import os
 import re
 import struct
 
@@ -587,3 +588,69 @@ def judge_scenario(sc, impl):
         if not got["complete"] and not want.startswith(got["raw"]):
             return "truncated Error Report is not a prefix of the expected one: %s vs %s" % (got["raw"].hex(), want.hex())
     return None
+
+
+# ---------------------------------------------------------------------------------------------
+# tr_send_all / tr_recv_all on a transport whose calls take time (harness/tr_loops.c)
+# ---------------------------------------------------------------------------------------------
+def tr_loops_exe():
+    return vlib.build_harness("tr_loops_asan", os.path.join(vlib.VERIF, "harness", "tr_loops.c"),
+                              includes_repo_c=("rtrlib/transport/transport.c",),
+                              wraps=("lrtr_get_monotonic_time",), san="asan")
+
+
+def tr_loop_expect(ln, behs):
+    """What C14_send_all / C04_recv_all_exact say (the model's loops have no clock): every call moves
+    min(beh, rest) bytes; a negative behaviour is the result; success = all bytes moved, result = len."""
+    moved = calls = 0
+    it = iter(behs)
+    while moved < ln:
+        b = next(it, (1000000, 0))[0]
+        calls += 1
+        if b < 0:
+            return b, moved, calls
+        moved += min(b, ln - moved)
+    return ln, moved, calls
+
+
+def tr_loop_cases(rnd, kind, n):
+    out = []
+    lens = [8, 12, 24, 123, 3248, 1, 20000]
+    delays = [0, 0, 0, 1, 59, 60, 61, 120, 4000]
+    for i in range(n):
+        ln = rnd.choice(lens)
+        timeout = rnd.choice([60, 60, 1, 0, 3600])
+        behs = []
+        for _ in range(rnd.randint(0, 12)):
+            b = rnd.choice([1, 1, 2, 3, 7, 8, 100, ln - 1 if ln > 1 else 1, ln, 100000])
+            if rnd.random() < 0.08:
+                b = rnd.choice([-1, -2, -3, -4])
+            behs.append((b, rnd.choice(delays)))
+        out.append((kind, ln, timeout, behs))
+    # told cases: a first partial call, then the clock jumps past the deadline, then the rest is taken at once
+    for ln in (8, 12, 3248):
+        for first in (1, 3, ln - 1):
+            for d in (59, 60, 61, 10000):
+                out.append((kind, ln, 60, [(first, d), (100000, 0)]))
+                out.append((kind, ln, 60, [(first, 0), (1, d), (100000, 0)]))
+    return out
+
+
+def tr_loops_check(rnd, kind, n):
+    """-> (number of cases, first disagreement or None)"""
+    cases = tr_loop_cases(rnd, kind, n)
+    text = "".join("%s %d %d %s\n" % (k, ln, to, " ".join("%d@%d" % b for b in behs)) for k, ln, to, behs in cases)
+    rc, out = vlib.sh([tr_loops_exe()], input=text, env=vlib.san_env(), timeout=300)
+    lines = [l for l in out.split("\n") if l.startswith("R ")]
+    if rc != 0 or len(lines) != len(cases):
+        return len(cases), {"what": "harness/tr_loops.c aborted or answered %d of %d cases" % (len(lines), len(cases)), "rc": rc,
+                            "tail": out[-1500:], "input": text.split("\n")[:len(lines) + 1][-3:]}
+    for c, l in zip(cases, lines):
+        w = l.split()
+        got = (int(w[1]), int(w[2]), int(w[3]))
+        exp = tr_loop_expect(c[1], c[3])
+        if got != exp:
+            return len(cases), {"what": "tr_%s_all: result / bytes moved / number of calls differ from the loop of the theorem" % kind,
+                                "case": "%s %d %d %s" % (c[0], c[1], c[2], " ".join("%d@%d" % b for b in c[3])),
+                                "impl (rc, bytes, calls)": got, "expected": exp}
+    return len(cases), None
